@@ -211,8 +211,31 @@ def signature(exe, d, text):
     frames = re.findall(r"^#\d+\s+(?:0x[0-9a-f]+ in )?(\w+) \(", out, re.M)
     frames = [f for f in frames if not f.startswith("__") and f not in ("raise", "abort", "kill")]
     if not frames:
-        return "fault:unknown"
+        m2 = re.search(r"Program fault \(([^)]*)\)", text)
+        return "fault:no-frames:" + (m2.group(1) if m2 else "unknown")
     return "segv:" + "/".join(frames[:3])
+
+
+def hang_signature(exe, d):
+    """where a non-terminating compilation is: the phase-level frames (the three frames
+    nested directly inside compFileFront), sampled with gdb after a few seconds"""
+    p = subprocess.Popen(compile_args(exe) + ["m.as"], cwd=d, env=C.aldor_env(),
+                         stdout=subprocess.DEVNULL, stderr=subprocess.DEVNULL)
+    try:
+        try:
+            p.wait(timeout=8)
+            return "hang:not-reproduced"
+        except subprocess.TimeoutExpired:
+            pass
+        rc, out, err = C.run(["gdb", "-batch", "-nx", "-p", str(p.pid), "-ex", "bt -16"], timeout=60)
+        names = re.findall(r"^#\d+\s+(?:0x[0-9a-f]+ in )?(\w+) \(", out, re.M)
+        if "compFileFront" in names:
+            i = names.index("compFileFront")
+            return "hang:" + "/".join(reversed(names[max(0, i - 3):i]))
+        return "hang:" + "/".join(reversed(names[-4:]))
+    finally:
+        p.kill()
+        p.wait()
 
 
 def one_case(exe, d, data):
@@ -273,6 +296,8 @@ def explore(rep, tier, exe, n_fixed, n_seeded):
             fk[k0] = fk.get(k0, 0) + 1
             if cl == "fault":
                 sig = signature(exe, d, text)
+            elif cl == "hang":
+                sig = hang_signature(exe, d)
             elif cl == "status_nonzero_without_error":
                 last = [l for l in text.strip().split("\n") if l.strip()]
                 sig = cl + ":" + (re.sub(r"\d+", "N", last[-1].strip())[:60] if last else "")
